@@ -94,7 +94,8 @@ def gen_cases(ctx, rng, count):
             from . import c08
             u_, p_, pu_ = rng.choice(c08.configs(rng))
             render = [rng.randint(0, 10 ** 6), u_, str(p_), pu_]
-        case = {"stream": stream, "f": f, "n": n, "data": data, "decl": dvars, "struct": struct, "period": period, "render": render}
+        case = {"stream": stream, "f": f, "n": n, "data": data, "decl": dvars, "struct": struct, "period": period, "render": render,
+                "reconf": period is not None and rng.random() < 0.5}
         if stream == "unless-sugar":
             case.update(struct=[], period=None, render=None, text="out = " + unless_text)
         cases.append(case)
@@ -127,6 +128,26 @@ def spec_text(case):
 
 def impl_eval(case, time=None):
     kw = {}
+    if case.get("period") and case.get("reconf") and not (case.get("struct") or ()):
+        # the object is evaluated once under the default period (whatever that gives), re-configured, and evaluated again: nothing
+        # derived from the old configuration may survive
+        text, n = spec_text(case), case["n"]
+
+        def go():
+            spec = impl.make_spec("offd", text, case["decl"])
+            spec.parse()
+
+            def ds():
+                d = {"time": list(time) if time is not None else list(range(n))}
+                d.update({v: list(case["data"][v]) for v in case["data"]})
+                return d
+            try:
+                spec.evaluate(ds())
+            except Exception:
+                pass
+            spec.set_sampling_period(case["period"][0], case["period"][1], 0.1)
+            return spec.evaluate(ds())
+        return impl.guarded(go)
     if case.get("period"):
         kw["sampling"] = (case["period"][0], case["period"][1], 0.1)
     if case.get("render"):
@@ -310,7 +331,8 @@ def case_of_replay(obj):
     f = F.from_proto(obj["formula"])
     data = {k: [float(x) for x in v] for k, v in obj["data"].items()}
     return {"stream": "replay", "f": f, "n": obj["n"], "data": data, "decl": obj.get("declare") or sorted(data),
-            "struct": obj.get("struct") or [], "period": obj.get("period"), "render": obj.get("render"), "text": obj.get("sugar_text")}
+            "struct": obj.get("struct") or [], "period": obj.get("period"), "render": obj.get("render"), "text": obj.get("sugar_text"),
+            "reconf": bool(obj.get("reconf"))}
 
 
 def replay(ctx, obj):
